@@ -209,6 +209,32 @@ class Drillhole(Points):
 
         return None
 
+    def copy_from_extent(
+        self,
+        extent: np.ndarray,
+        parent=None,
+        copy_children: bool = True,
+        clear_cache: bool = False,
+        inverse: bool = False,
+        **kwargs,
+    ) -> Drillhole | None:
+        """
+        Sub-class extension of :func:`~geoh5py.shared.entity.Entity.copy_from_extent`.
+
+        The hole is selected by its collar and copied whole: the mask on the collar
+        does not apply to the vertices and data along the hole.
+        """
+        indices = self.mask_by_extent(extent, inverse=inverse)
+        if indices is None or not np.all(indices):
+            return None
+
+        return self.copy(
+            parent=parent,
+            copy_children=copy_children,
+            clear_cache=clear_cache,
+            **kwargs,
+        )
+
     @property
     def planning(self) -> str:
         """
